@@ -475,6 +475,18 @@ E8_PINS = {
             (MANF, "KeplerianImpulsiveMan.__init__", "element increments default to zero"), (MANF, "KeplerianImpulsiveMan.dv", "dv from element increments, in TNW"),
             (MANF, "KeplerianContinuousMan.__init__", "element increments default to zero"), (MANF, "KeplerianContinuousMan.accel", "acceleration from element increments")],
     "C20": [("beyond/frames/frames.py", "get_frame", "unknown names are reported, JPL frames created on demand")],
+    "C01": [("beyond/orbits/statevector.py", "Infos.type", "first classification flag that holds")],
+    "C18": [("beyond/env/jpl.py", "Pck.__getitem__", "kernel constants converted to SI (km → m, km³/s² → m³/s²)")],
+    "C19": [("beyond/utils/lambert.py", "_C", "Stumpff function C(z), three branches"), ("beyond/utils/lambert.py", "_S", "Stumpff function S(z), three branches"),
+            ("beyond/utils/lambert.py", "_y", "auxiliary y(z)"), ("beyond/utils/lambert.py", "_dF", "derivative used by the Newton iteration"),
+            ("beyond/utils/lambert.py", "_lambert", "Newton iteration on z, Lagrange coefficients, both velocities"),
+            ("beyond/utils/interplanetary.py", "flyby", "turn angle and periapsis radius of a fly-by"), ("beyond/utils/interplanetary.py", "bplane", "B-plane vectors and angle"),
+            ("beyond/utils/leo.py", "sso_frozen", "fixed-point iteration between the sun-synchronous and the frozen conditions"),
+            ("beyond/utils/leo.py", "frozen", "frozen eccentricity"),
+            ("beyond/utils/constellation.py", "WalkerStar.nu", "phasing between planes"), ("beyond/utils/constellation.py", "WalkerStar.raan", "plane spacing over 180°"),
+            ("beyond/utils/constellation.py", "WalkerDelta.raan", "plane spacing over 360°"), ("beyond/utils/constellation.py", "WalkerDelta.nu", "phasing between planes"),
+            ("beyond/utils/constellation.py", "WalkerStar.iter_fleet", "one (raan, nu) per satellite"), ("beyond/utils/constellation.py", "WalkerStar.per_plane", "satellites per plane"),
+            ("beyond/utils/ltan.py", "orb2ltan", "local time of the ascending node of an orbit"), ("beyond/utils/beta.py", "beta_limit", "eclipse-free limit of the beta angle")],
 }
 
 
